@@ -131,33 +131,21 @@ func builtinGlobalParseInt(call FunctionCall) Value {
 	return int64Value(value)
 }
 
-var (
-	parseFloatMatchBadSpecial = regexp.MustCompile(`[\+\-]?(?:[Ii]nf$|infinity)`)
-	parseFloatMatchValid      = regexp.MustCompile(`[0-9eE\+\-\.]|Infinity`)
-)
+// The longest prefix that is a StrDecimalLiteral (ECMA-262 9.3.1).
+var parseFloatMatchPrefix = regexp.MustCompile(`^[+-]?(?:Infinity|(?:[0-9]+\.?[0-9]*|\.[0-9]+)(?:[eE][+-]?[0-9]+)?)`)
 
 func builtinGlobalParseFloat(call FunctionCall) Value {
-	// Caveat emptor: This implementation does NOT match the specification
-	input := strings.Trim(call.Argument(0).string(), builtinStringTrimWhitespace)
+	// ECMA-262 15.1.2.3
+	input := strings.TrimLeft(call.Argument(0).string(), builtinStringTrimWhitespace)
 
-	if parseFloatMatchBadSpecial.MatchString(input) {
+	prefix := parseFloatMatchPrefix.FindString(input)
+	if prefix == "" {
 		return NaNValue()
 	}
-	value, err := strconv.ParseFloat(input, 64)
-	if err != nil {
-		for end := len(input); end > 0; end-- {
-			val := input[0:end]
-			if !parseFloatMatchValid.MatchString(val) {
-				return NaNValue()
-			}
-			value, err = strconv.ParseFloat(val, 64)
-			if err == nil {
-				break
-			}
-		}
-		if err != nil {
-			return NaNValue()
-		}
+	// An out of range error still carries the correctly rounded result (+-Inf).
+	value, err := strconv.ParseFloat(prefix, 64)
+	if err != nil && !errors.Is(err, strconv.ErrRange) {
+		return NaNValue()
 	}
 	return float64Value(value)
 }
